@@ -95,6 +95,31 @@ func coreGen(m map[string]string) error {
 		}
 		return w.Close()
 	}
+	if m["family"] == "tiny" {
+		// systematic enumeration by index; a sample strides through the whole family from a
+		// seed-dependent offset (n >= count: the whole family)
+		w, err := newNDJSON(m["out"])
+		if err != nil {
+			return err
+		}
+		total := tinyCaseCount()
+		n := argInt(m, "n", 300)
+		if n > total {
+			n = total
+		}
+		start := int((Seed() * 104729) % int64(total))
+		stride := total/n | 1
+		for i := 0; i < n; i++ {
+			id := (start+i*stride)%total + 1
+			if n == total {
+				id = i + 1
+			}
+			if err := w.Write(genTinyCase(id)); err != nil {
+				return err
+			}
+		}
+		return w.Close()
+	}
 	cfg, ok := families[m["family"]]
 	if !ok {
 		return fmt.Errorf("unknown family %q", m["family"])
